@@ -1,12 +1,12 @@
-(* C01 - ZINC round trip.  PARTIAL: proved for the text-carrying scalars (every code-point list, in the
-   string and the URI alphabet) through the dumper's isinstance ladder and the reader's WHOLE scalar
-   alternation, for either version and whatever follows the literal; for non-finite numbers; and for the
-   document framing (final newline).  The remaining kinds and the row / grid structure are covered by the
+(* C01 - ZINC round trip.  Proved: whole version-3.0 grids without metadata whose cells are strings, URIs, numbers /
+   quantities, dates, times, the letter scalars, plain references or lists of those to any depth (C01_grid_roundtrip,
+   C01_grid_roundtrip_top), each kind through the reader's WHOLE scalar alternation for either version.  PARTIAL: grid and
+   column metadata, dicts, nested grids, date-times, coordinates, Bin, XStr and multi-grid documents are covered by the
    model-implementation tie and the search (harness/props/c01.py), and by concrete computed examples here. *)
 From Coq Require Import String.
 From Coq Require Import List NArith Bool.
 From HS Require Import Base.Prelude Model.Value Model.Escape Model.Version Model.Json Model.ZincDump Model.ZincParse.
-From HS Require Import Proofs.EscapeP Proofs.ZincParseP Proofs.ZincDumpP.
+From HS Require Import Proofs.EscapeP Proofs.ZincParseP Proofs.ZincDumpP Proofs.ZincNumP Proofs.ZincDateP Proofs.ZincListP Proofs.ZincGridP.
 Import ListNotations.
 Open Scope N_scope.
 
@@ -45,6 +45,121 @@ Proof.
   apply scalar_ref_plain; assumption.
 Qed.
 
+(* NUMBERS AND QUANTITIES: every finite number whose text has the shape the writer emits - optional minus sign, digits,
+   optional fraction, optional exponent e / e+ / e- with digits (the text itself comes from CPython's float formatting, an
+   oracle) - with or without a unit (unit characters that are not digits, not starting with _ e E), followed by a
+   delimiter, is written as that text and comes back through the WHOLE scalar alternation of either version as exactly that
+   number: the date, time, date-time and extended-string rules, which also start with digits, never win *)
+Theorem C01_number : forall f g pre3 ver3 sg ip fp ex u t rest,
+  ntok_ok sg ip fp ex u -> delim rest ->
+  zdump (S f) pre3 (nval sg ip fp ex u) = Ok t -> p_scalar (S g) ver3 (t ++ rest) = Some (Ok (nval sg ip fp ex u), rest).
+Proof.
+  intros f g pre3 ver3 sg ip fp ex u t rest Hok Hd. unfold nval. cbn [zdump znum_text].
+  pose proof (scalar_number g ver3 sg ip fp ex u rest Hok Hd) as S.
+  destruct u as [[|c u']|]; intro Q; inversion Q; subst t; cbn [upt] in S.
+  - destruct Hok as [_ [_ [_ [[Hne _] _]]]]. contradiction.
+  - rewrite <- app_assoc. exact S.
+  - exact S.
+Qed.
+Example C01_number_nonvacuous :
+  ntok_ok true (s_ "12") (Some (s_ "5")) (Some (Some 45, s_ "07")) (Some (s_ "kW/h")) /\
+  mant true (s_ "12") (Some (s_ "5")) (Some (Some 45, s_ "07")) = s_ "-12.5e-07" /\
+  ntok_ok false (s_ "2020") None None None /\ delim (s_ ",x").
+Proof.
+  assert (D : forall l, forallb is_ascii_digit l = true -> l <> [] -> digs l).
+  { intros l H Hne. split; [exact Hne|]. apply Forall_forall. intros c Hc. rewrite forallb_forall in H. exact (H c Hc). }
+  split; [|split; [reflexivity|split]].
+  - unfold ntok_ok. split; [apply D; [reflexivity|discriminate]|]. split; [apply D; [reflexivity|discriminate]|].
+    split; [split; [right; right; reflexivity|apply D; [reflexivity|discriminate]]|]. split; [|left; reflexivity].
+    cbn [u_ok]. unfold unit_ok. split; [discriminate|]. split; [|repeat split; discriminate].
+    repeat (constructor; [split; reflexivity|]). constructor.
+  - unfold ntok_ok. split; [apply D; [reflexivity|discriminate]|]. cbn [fp_ok ex_ok u_ok]. repeat split. right; reflexivity.
+  - right. eexists. eexists. split; [reflexivity|]. left. reflexivity.
+Qed.
+
+(* DATES AND TIMES: every valid calendar date and every time of day (with or without microseconds), followed by a
+   delimiter, is written in ISO form and comes back through the WHOLE scalar alternation of either version: the number
+   rule, which reads the leading digits, loses to the longer match; the date-time, extended-string and the other
+   digit-led rules do not match *)
+Theorem C01_date : forall f g pre3 ver3 y m d t rest,
+  valid_date y m d = true -> delim rest ->
+  zdump (S f) pre3 (VDate y m d) = Ok t -> p_scalar (S g) ver3 (t ++ rest) = Some (Ok (VDate y m d), rest).
+Proof. intros f g pre3 ver3 y m d t rest Hv Hd. cbn [zdump]. intro Q; inversion Q; subst t. apply scalar_date; assumption. Qed.
+Theorem C01_time : forall f g pre3 ver3 h mi s us t rest,
+  time_ok h mi s us -> delim rest ->
+  zdump (S f) pre3 (VTime h mi s us) = Ok t -> p_scalar (S g) ver3 (t ++ rest) = Some (Ok (VTime h mi s us), rest).
+Proof. intros f g pre3 ver3 h mi s us t rest Hv Hd. cbn [zdump]. intro Q; inversion Q; subst t. apply scalar_time; assumption. Qed.
+Example C01_date_time_nonvacuous : valid_date 2024 2 29 = true /\ time_ok 23 59 59 999999 /\ iso_time 7 5 0 1500 = s_ "07:05:00.001500".
+Proof. split; [reflexivity|]. split; [unfold time_ok; repeat split; (discriminate || reflexivity)|reflexivity]. Qed.
+
+(* LISTS, to any depth: a list of values that are each written as some text and read back from it (whenever a comma, a
+   closing bracket, a line end or the end of the text follows) is written as [t1,t2,...] and read back as that list
+   through the whole 3.0 scalar alternation.  zcell n v t: v is a leaf (below) or a list of zcell (n-1) values. *)
+Theorem C01_nested_lists : forall n v t, zcell n v t ->
+  (forall f, zdump (S (n + f)) false v = Ok t) /\
+  (forall k rest, delim_ns rest -> p_scalar (S (n + k)) true (t ++ rest) = Some (Ok v, rest)).
+Proof. intros n v t H. split; [apply zcell_dump; exact H|]. intros k rest Hd. exact (zcell_reads n v t H k rest Hd). Qed.
+(* the leaves: every string and URI, every finite number / quantity of the written shape, every valid date, every time,
+   null, marker, Remove, NA, booleans, references without display name *)
+Theorem C01_leaves :
+  (forall s e, escape_str s = Ok e -> leafc (VStr s) (DQ :: e ++ [DQ])) /\
+  (forall s e, escape_uri s = Ok e -> leafc (VUri s) (BQ :: e ++ [BQ])) /\
+  (forall sg ip fp ex u, ntok_ok sg ip fp ex u -> leafc (nval sg ip fp ex u) (mant sg ip fp ex ++ upt u)) /\
+  (forall y m d, valid_date y m d = true -> leafc (VDate y m d) (iso_date y m d)) /\
+  (forall h mi s us, time_ok h mi s us -> leafc (VTime h mi s us) (iso_time h mi s us)) /\
+  leafc VNull [78] /\ leafc VMarker [77] /\ leafc VRemove [82] /\ leafc VNA [78; 65] /\ (forall b, leafc (VBool b) [if b then 84 else 70]) /\
+  (forall name, Forall (fun c => is_zref_char c = true) name -> leafc (VRef name None) (64 :: name)).
+Proof.
+  exact (conj leafc_str (conj leafc_uri (conj leafc_number (conj leafc_date (conj leafc_time (conj leafc_null (conj leafc_marker
+         (conj leafc_remove (conj leafc_na (conj leafc_bool leafc_ref)))))))))).
+Qed.
+
+(* WHOLE GRIDS (version 3.0, no grid or column metadata): for every non-empty list of distinct column names, every number
+   of rows, every cell a zcell value (so: any of the leaves above or nested lists of them, at any depth n), the text the
+   writer produces is read back by the grid rule - and by the top-level reader parse_grid, version sniffing included -
+   as exactly that grid.  (With metadata, dicts, nested grids, date-times, coordinates, Bin, XStr: tie + search.) *)
+Theorem C01_grid_roundtrip : forall n names rows rts,
+  names <> [] -> Forall colname names -> NoDup names -> Forall2 (grid_cells_ok n names) rows rts ->
+  (forall f, zdump_grid (S (S (n + f))) V30 [] (map (fun x => (x, [])) names) (map (fun cells => combine names cells) rows) = Ok (plain_text names rts)) /\
+  (forall k, p_grid (S (S (n + k))) true (plain_text names rts) = Some (Ok (plain_grid names rows), [])).
+Proof. exact grid_roundtrip. Qed.
+Theorem C01_grid_roundtrip_top : forall n names rows rts,
+  names <> [] -> Forall colname names -> NoDup names -> Forall2 (grid_cells_ok n names) rows rts ->
+  (n <= length (plain_text names rts))%nat ->
+  zparse_grid (plain_text names rts) = Ok (plain_grid names rows).
+Proof. exact grid_roundtrip_top. Qed.
+
+(* non-vacuity: a concrete grid meets the hypotheses; its text, and what the top-level reader makes of it *)
+Example C01_grid_nonvacuous :
+  let names := [s_ "a"; s_ "b"] in
+  let rows := [[VStr (s_ "x,y"); nval false (s_ "12") None None None]; [VList [VNull; VBool true; VList []]; VNull]] in
+  let rts := [[s_ """x,y"""; s_ "12"]; [s_ "[N,T,[]]"; s_ "N"]] in
+  Forall2 (grid_cells_ok 2 names) rows rts /\
+  plain_text names rts = s_ "ver:""3.0""
+a,b
+""x,y"",12
+[N,T,[]],N
+" /\ zparse_grid (plain_text names rts) = Ok (plain_grid names rows).
+Proof.
+  intros names rows rts.
+  assert (D12 : ntok_ok false (s_ "12") None None None).
+  { unfold ntok_ok, digs, fp_ok, ex_ok, u_ok. repeat split; try discriminate; try (repeat constructor; fail). }
+  assert (H : Forall2 (grid_cells_ok 2 names) rows rts).
+  { constructor; [|constructor; [|constructor]]; (split; [reflexivity|]).
+    - constructor; [left; apply (leafc_str (s_ "x,y") (s_ "x,y")); reflexivity|].
+      constructor; [left; exact (leafc_number false (s_ "12") None None None D12)|constructor].
+    - constructor; [|constructor; [left; exact leafc_null|constructor]].
+      right. exists [VNull; VBool true; VList []], [s_ "N"; s_ "T"; s_ "[]"]. split; [reflexivity|]. split; [reflexivity|].
+      constructor; [left; exact leafc_null|]. constructor; [left; exact (leafc_bool true)|]. constructor; [|constructor].
+      right. exists [], []. split; [reflexivity|]. split; [reflexivity|constructor]. }
+  split; [exact H|]. split; [reflexivity|].
+  apply (C01_grid_roundtrip_top 2 names rows rts); try exact H.
+  - discriminate.
+  - repeat constructor.
+  - repeat constructor; cbn [In]; intuition discriminate.
+  - vm_compute. repeat constructor.
+Qed.
+
 (* the writer never fails on text *)
 Theorem C01_text_always_dumps : forall f pre3 s, (exists t, zdump (S f) pre3 (VStr s) = Ok t) /\ (exists t, zdump (S f) pre3 (VUri s) = Ok t).
 Proof.
@@ -67,6 +182,13 @@ Example C01_grid_example :
   end.
 Proof. vm_compute. reflexivity. Qed.
 
+Print Assumptions C01_grid_roundtrip.
+Print Assumptions C01_grid_roundtrip_top.
+Print Assumptions C01_nested_lists.
+Print Assumptions C01_leaves.
+Print Assumptions C01_number.
+Print Assumptions C01_date.
+Print Assumptions C01_time.
 Print Assumptions C01_ref_partial.
 Print Assumptions C01_letter_scalars_partial.
 Print Assumptions C01_na_partial.
